@@ -204,6 +204,7 @@ func main() {
 	rep := vh.NewReport(a, "PRNG programs of 7 classes (expr: typed integer/float/string arithmetic of 10 integer kinds; flow: for/range/switch/fallthrough/labelled break+continue/if-else chains; closure: counters, captured loop variables, fold, recursive closure; "+
 		"defer: defer/panic/recover with named results, runtime panics, 1/2 ending in an uncaught panic (user, nil map, nil pointer, division by zero); composite: structs, methods, interfaces, maps, slices, arrays, type switch; "+
 		"embed: promoted fields and methods through named and UNNAMED struct types - values, &struct{..}{..}, new(struct{..}), variables, slice/map elements and fields of struct-literal type, embedding by value and by pointer, method values, interface satisfaction; "+
+		"index (16 quick / 160 thorough programs, own PRNG stream): index expressions resembling the generics syntax - maps keyed by struct / array / named array / nested struct / interface / pointer types indexed by TYPED composite literals, operand = global, local, selector, call result, parenthesised, element of a slice of maps; as value, assignment target, op-assignment, ++, comma-ok, call of a func element, delete, inside loops and closures; slice/array indexes that are index / selector / method-call expressions over a composite literal; "+
 		"mini: the statement language of the Coq model, breakpoint statements included); a third of the non-mini programs get breakpoint statements (\"break\" / _ = \"break\", no debugger installed) at the start of function, loop and if/else bodies; + untyped constant expressions; each evaluated in 128 interpreters = every subset of {OptDebugger, OptCollectDeclarations, OptCollectStatements, OptTrapPanic, OptPanicStackTrace, OptKeepUntyped} x GENERICS {NONE, V2_CTI} through Interp.ParseEvalPrint; "+
 		"one evaluated case = one (program, configuration); non-trivial when the program produced >= 1 emit or a panic; distinct by SHA-256 of program text + configuration")
 	nProg, nConst := 63, 60
@@ -211,6 +212,10 @@ func main() {
 		// measured 2026-09-22 on the loaded machine: ~1.15 s per program and ~0.6 s per constant (128 configurations each,
 		// sequential because etoken.GENERICS is a process global); 1400/2000 took 49 min, 640/600 stays below 25 min
 		nProg, nConst = 640, 600
+	}
+	nIndex := 16
+	if a.Thorough() {
+		nIndex = 160
 	}
 	if a.N > 0 {
 		nProg = a.N
@@ -225,8 +230,14 @@ func main() {
 	}
 	cw := vh.NewCases(a, "From Coq Require Import List ZArith Bool.\nFrom Verif Require Import C18.Model.\nImport ListNotations.\nOpen Scope Z_scope.", "case", "mismatches", 40)
 	idx := 0
-	for pi := 0; pi < nProg; pi++ {
-		p := genProg(rng.Fork(), pi)
+	irng := vh.NewRng(a.Seed*15485863 + 1818) // own PRNG stream of the class "index" programs
+	for pi := 0; pi < nProg+nIndex; pi++ {
+		var p *prog
+		if pi < nProg {
+			p = genProg(rng.Fork(), pi)
+		} else {
+			p = genIndexProg(irng.Fork(), pi)
+		}
 		wd.Beat(p)
 		var ref obs
 		for ci, c := range cfgs {
@@ -298,7 +309,8 @@ func main() {
 		}
 	}
 	rep.Extra["configurations"] = ncfg
-	rep.Extra["programs"] = nProg
+	rep.Extra["programs"] = nProg + nIndex
+	rep.Extra["index_programs"] = nIndex
 	rep.Extra["constant_expressions"] = nConst
 	rep.Extra["mini_programs_to_model"] = idx
 	rep.Write()
